@@ -216,3 +216,36 @@ Definition scase_dup_violation (c : scase) : bool := negb (select_dup_ok (sc_mr 
 Definition scase_spec_violation (c : scase) : bool := negb (select_spec_ok (sc_mr c) (sc_rows c) (sc_fetch c) (sc_obs c)).
 Definition select_mismatches (cs : list scase) : list Z := map sc_id (filter scase_mismatch cs).
 Definition select_spec_violations (cs : list scase) : list Z := map sc_id (filter scase_spec_violation cs).
+
+(* ================= the storage contract side: model.SeriesSet and Prometheus' label order ================= *)
+(* model.SeriesSet: Reset() puts idx at -1; Next() { idx++; return Series != nil && idx < len(Series) } (Select always
+   allocates Series); At() = Series[idx] (None = index out of range, a Go panic) *)
+Record sset := { ss_series : list out_series; ss_idx : Z }.
+Definition sset_new (l : list out_series) : sset := {| ss_series := l; ss_idx := -1 |}.
+Definition sset_next (s : sset) : sset * bool :=
+  let s' := {| ss_series := ss_series s; ss_idx := ss_idx s + 1 |} in
+  (s', (ss_idx s' <? Z.of_nat (List.length (ss_series s')))%Z).
+Definition sset_at (s : sset) : option out_series :=
+  if ((0 <=? ss_idx s) && (ss_idx s <? Z.of_nat (List.length (ss_series s))))%Z
+  then nth_error (ss_series s) (Z.to_nat (ss_idx s)) else None.
+(* the engine's loop `for ss.Next() { s := ss.At() .. }` *)
+Fixpoint sset_drain (fuel : nat) (s : sset) : list (option out_series) :=
+  match fuel with
+  | O => []
+  | S f => let '(s', ok) := sset_next s in if ok then sset_at s' :: sset_drain f s' else []
+  end.
+
+(* labels.Compare of Prometheus (model/labels/labels.go): pairwise by name then value, then the shorter list first *)
+Definition str_compare (a b : string) : comparison :=
+  if str_ltb a b then Lt else if str_ltb b a then Gt else Eq.
+Fixpoint labels_compare (a b : labels) : comparison :=
+  match a, b with
+  | [], [] => Eq
+  | [], _ :: _ => Lt
+  | _ :: _, [] => Gt
+  | (n1, v1) :: ra, (n2, v2) :: rb =>
+    match str_compare n1 n2 with
+    | Eq => match str_compare v1 v2 with Eq => labels_compare ra rb | c => c end
+    | c => c
+    end
+  end.
